@@ -52,7 +52,12 @@ theorem storable_inline_decision (w : World) (x : SlabID) (wrap lim : Nat) (cx :
     * `hset` (new, a fact about `Arr.set` / `Arr.get` taken as hypothesis): setting slot `idx` of
       the parent array to a reference and reading it back gives that reference.  (`C01.set_refines`
       cannot be used: it is stated for plain values (`ValueOk`) and standalone arrays only.)
-    * conclusion strengthened by `c'.vid = x ∧ c'.storedElems = c.storedElems`. -/
+    * conclusion strengthened by `c'.vid = x ∧ c'.storedElems = c.storedElems`.
+
+    SUPERSEDED (audit a5, S7) by `C10W.notify_updates_parent` (array AND map parents, from the world
+    invariant only: no `hset`, no `hacyc` — which is NOT an invariant, `C10W.closure_pointers_may_cycle`)
+    and, at operation / history level, by `C10W.worldOk'_*_all` and `C10Hist.history_read_through`.
+    Kept as a one-step reading of the callback. -/
 theorem notify_updates_array_parent (fuel : Nat) (w : World) (x p : SlabID) (hi : HInfo) (cx : Ctx)
     (c : Cont) (pa : Arr) (idx : Nat) (el : Elem)
     (hh : AList.find? w.hinfo x = some hi) (hp : hi.parent = p) (hc : w.cont? x = some c) (hid : c.vid = x)
@@ -154,7 +159,9 @@ theorem handed_back_is_standalone (w : World) (e : Elem) (cx : Ctx) (x : SlabID)
       intro hf; rw [hi] at hf; cases hf
 
 /-- `incrementIndexFrom` / `decrementIndexFrom` range over a Go map in random order: the result
-    does not depend on the order (C04). -/
+    does not depend on the order (C04).
+    SUPERSEDED (audit a5, S6 / S7) by `C10Idx.index_shift_order_independent'`, whose `Nodup`
+    hypothesis is the invariant `World.IdxNodup` (preserved by every operation, unconditionally). -/
 theorem index_shift_order_independent (w : World) (p : SlabID) (f : Nat → Nat)
     (perm : AList SlabID Nat) (hperm : perm.Perm (w.idxOf p)) (x : SlabID)
     (hnd : (AList.keys (w.idxOf p)).Nodup) :
@@ -266,7 +273,9 @@ theorem elem_sync_childStorable (w : World) (x : SlabID) (wrap lim : Nat) (cx : 
     unconditional reading): `set` of a reference / `insert` refine `List.set` / `List.insertIdx`
     and keep `I`; `get` reads the list; `I` does not depend on the inline / standalone form.
     (`C01.set_refines` / `insert_refines` are the instances for plain values and standalone arrays;
-    they do not cover references nor inlined roots, hence hypotheses.) -/
+    they do not cover references nor inlined roots, hence hypotheses.)
+    SUPERSEDED (audit a5, S7) by `C10W.mutIdx_ok_arrInsert` / `C10W.worldOk'_mutIdxOk` (no hypothesis
+    about the array operations: `MutIdxOk` is a clause of the invariant of every operation). -/
 theorem mutIdx_ok_arrInsert (w : World) (p : SlabID) (i : Nat) (v : WVal) (cx : Ctx)
     (w' : World) (cx' : Ctx) (h : w.arrInsert p i v cx = .ok (w', cx'))
     (hmi : MutIdxOk w)
